@@ -30,7 +30,18 @@ Proof. exact negotiate_is_rfc. Qed.
 Theorem C07_negotiate_is_rfc_this_tree : forall c r,
   wf_cfg c -> wf_peer r -> LOCAL_AS_FROM_CAP = true \/ c_local_as c <= 65535 ->
   agrees (negotiate c r) (rfc_negotiate (our_adv c) (view r)).
-Proof. exact (negotiate_is_rfc LOCAL_AS_FROM_CAP). Qed.
+Proof. exact negotiate_this_tree. Qed.
+
+(* `local-as auto`: with the repaired Protocol.new_open (T6 probe AUTO_AS_FROM_PEER_CAP) our OPEN is the one of the
+   configuration whose local AS is the peer's true AS, so both negotiated AS numbers are that AS (an internal
+   session) and every other field is the RFC function as above. *)
+Theorem C07_local_as_auto : forall c r,
+  c_local_as c = 0 -> AUTO_AS_FROM_PEER_CAP = true -> c_asn4 c = true ->
+  wf_cfg (with_local_as c (true_as (view r))) -> wf_peer r ->
+  let n := negotiate_g true (our_open c r) r in
+  n_local_as n = true_as (view r) /\ n_peer_as n = true_as (view r)
+  /\ agrees n (rfc_negotiate (our_adv (with_local_as c (true_as (view r)))) (view r)).
+Proof. exact auto_is_ibgp. Qed.
 
 (* The unrepaired behaviour does not meet the full statement: local AS 70000 is negotiated as 23456. *)
 Theorem C07_local_as_refuted :
@@ -156,6 +167,7 @@ Qed.
 Print Assumptions C07_advertises_exactly_config.
 Print Assumptions C07_negotiate_is_rfc.
 Print Assumptions C07_negotiate_is_rfc_this_tree.
+Print Assumptions C07_local_as_auto.
 Print Assumptions C07_local_as_refuted.
 Print Assumptions C07_families_intersection.
 Print Assumptions C07_holdtime_min.
